@@ -440,12 +440,24 @@ func (g *genCtx) genStmt(t *Table, own func(i int) bool, explicit bool) Stmt {
 		var sets []string
 		for j := 0; j < 1+r.Intn(2); j++ {
 			ci := r.Intn(len(t.Cols))
+			if j == 0 && r.Chance(1, 2) {
+				// prefer a column whose own change can be tiny (a cent on a large balance, the next representable double)
+				var fine []int
+				for x, c := range t.Cols {
+					if c.Typ == "DECIMAL" || c.Typ == "DOUBLE" || c.Typ == "FLOAT" {
+						fine = append(fine, x)
+					}
+				}
+				if len(fine) > 0 {
+					ci = fine[r.Intn(len(fine))]
+				}
+			}
 			if seen[ci] {
 				continue
 			}
 			seen[ci] = true
 			c := t.Cols[ci]
-			if c.Typ == "DECIMAL" && r.Chance(1, 2) {
+			if c.Typ == "DECIMAL" && r.Chance(2, 3) {
 				n := int64(1 + r.Intn(2))
 				s.Set = append(s.Set, SetItem{Col: ci, Op: "incd", N: n})
 				sets = append(sets, fmt.Sprintf("%s = %s + 0.0%d", c.Name, c.Name, n))
